@@ -173,6 +173,20 @@ BracketsOK(hist) == LET o == GroupOutcome(hist) IN
     /\ Cardinality({k \in DOMAIN o.ids : o.ids[k] = "("}) = Cardinality({k \in DOMAIN o.ids : o.ids[k] = ")"})
     /\ \A k \in DOMAIN o.ids : (o.ids[k] = "ROLLUP" /\ k > 1 /\ o.ids[k - 1] # "WITH") => o.ids[k + 1] = "("
 
+\* ---- naming a table by a path.  names = <<table>> | <<schema, table>> | <<database, schema, table>>; route = how the caller spelt it:
+\*   "kw_obj"    Table(t, schema=Schema(s, parent=Schema(d)))      "kw_str"   Table(t, schema="s")            (two names only)
+\*   "kw_list"   Table(t, schema=[d, s])   "kw_tuple"  (d, s)      "attr"     Schema(s).t / Database(d).s.t   (two / three names)
+\*   "make"      make_tables(t, schema=..)[0]                      "make_al"  make_tables((t, alias), schema=..)[0]
+\* One abstract path whatever the route: the FROM clause names exactly the path, outermost first, then the alias if one was given; a name
+\* is one identifier even when it contains a dot; and the table equals (and hashes like) the one built by the "kw_obj" route.
+RouteApplies(route, n) == CASE route = "kw_str" -> n = 2
+                            [] route \in {"kw_list", "kw_tuple", "attr"} -> n \in {2, 3}
+                            [] OTHER -> n \in {1, 2, 3}
+TablePath(route, names, alias) == [ids |-> names \o (IF alias = "" THEN <<>> ELSE <<alias>>), eq |-> TRUE]
+PathOK(route, names, alias) == LET r == TablePath(route, names, alias) IN
+    RouteApplies(route, Len(names)) => /\ SubSeq(r.ids, 1, Len(names)) = names
+                                        /\ Len(r.ids) = Len(names) + (IF alias = "" THEN 0 ELSE 1)
+
 \* The render paths of one statement - str(), repr(), get_sql() without a context, get_sql(the context of its query class) - are one
 \* action: they yield one text (outs = the texts, in that order).
 PathsAgree(outs) == \A i, j \in DOMAIN outs : outs[i] = outs[j]
